@@ -56,6 +56,12 @@ KS = [0.0, 0.1, 0.5, 1.0, 2.0, 4.0, 10.0, 30.0, 100.0]
 def gen_case(run_seed: int, index: int, tier: str) -> dict:
     rng = core.rng_for(run_seed)
     mode = rng.choices(["structure", "supplied", "statistics", "noise"], weights=[35, 20, 35, 10])[0]
+    if index % 5000 == 11:
+        # one very long sequence per 5000 runs: positions beyond 2**24 are where float32 index arithmetic breaks
+        return {"mode": "huge", "fading": rng.choice(["rayleigh", "rician", "lognormal"]), "k": 2.0, "sigma_db": 4.0, "T": rng.choice([1, 7]),
+                "how": "generic", "complex": False, "dtype": "float32", "shape": [(1 << 24) + rng.choice([2, 3, 9])],
+                "noise_param": "power", "power": 0.1, "snr_db": 10.0, "sig_power": 1.0,
+                "torch_seed": rng.randrange(1 << 31), "data_seed": rng.randrange(1 << 31)}
     ft = rng.choice(["rayleigh", "rician", "rician", "lognormal"])
     if mode == "statistics":
         shape = rng.choice([[1 << 20], [64, 16384], [1024, 1024], [16, 4, 128, 128], [4096, 256]])
@@ -82,7 +88,8 @@ def gen_case(run_seed: int, index: int, tier: str) -> dict:
         "noise_param": rng.choice(["power", "snr"]), "power": 10 ** rng.uniform(-3, 1), "snr_db": round(rng.uniform(-10, 35), 2),
         "sig_power": 10 ** rng.uniform(-2, 2),
         "torch_seed": rng.randrange(1 << 31), "data_seed": rng.randrange(1 << 31),
-        "warmup": rng.choice([None, None, [6], [2, 9], [3, 2, 2, 2]]),  # an earlier call on the same channel object, other shape
+        "warmup": rng.choice([None, None, [6], [2, 9], [3, 2, 2, 2], "same", "same"]),  # earlier calls on the same channel object: another shape, or the very shape of the judged call
+        "module_cast": rng.choice([None, None, None, "double", "float", "to_cpu", "deepcopy"]),
         "noncontig": rng.random() < 0.2,
         "warmup_n": rng.choice([1, 1, 2, 4]), "other_instance_first": rng.random() < 0.2, "mode_toggle": rng.choice([None, None, "eval", "train"]),
     }
@@ -145,12 +152,20 @@ def execute(case: dict) -> RunResult:
         ch.train(case["mode_toggle"] == "train")
     mode = case["mode"]
     cdt = torch.complex128 if case["dtype"] == "float64" else torch.complex64
+    if case.get("module_cast"):
+        import copy as _copy
+
+        mc = case["module_cast"]
+        ch = {"double": ch.double, "float": ch.float, "to_cpu": lambda: ch.to("cpu"), "deepcopy": lambda: _copy.deepcopy(ch)}[mc]()
+        res.faults[f"history.module_{mc}"] += 1
     if case.get("warmup"):
         gw = torch.Generator().manual_seed(case["data_seed"] ^ 0x77)
         torch.manual_seed(case["torch_seed"] ^ 0x2468)
-        for _ in range(case.get("warmup_n", 1)):
-            ch(torch.randn(case["warmup"], generator=gw, dtype=DT[case["dtype"]]) * 3.0)
-            res.faults["history.earlier_call_on_same_object"] += 1
+        wshape = case["shape"] if case["warmup"] == "same" else case["warmup"]
+        if case["warmup"] != "same" or n <= (1 << 21):
+            for _ in range(case.get("warmup_n", 1)):
+                ch(torch.randn(wshape, generator=gw, dtype=DT[case["dtype"]]) * 3.0)
+                res.faults["history.earlier_call_on_same_object"] += 1
 
     def flat(t):  # the channel's internal (batch, sequence) layout
         return t.reshape(B, L)
@@ -158,6 +173,36 @@ def execute(case: dict) -> RunResult:
     def as_c(t):
         return t if torch.is_complex(t) else torch.complex(t, torch.zeros_like(t))
 
+    if mode == "huge":
+        x = torch.ones(shape, dtype=torch.float32)
+        torch.manual_seed(case["torch_seed"])
+        try:
+            y = ch(x, noise=torch.zeros(1, 1, dtype=torch.complex64))
+        except Exception as e:
+            violate("exception_long_sequence", f"a sequence of {L} samples raised {type(e).__name__}: {str(e)[:120]}")
+            res.digest, res.n_events = log.digest(), len(log)
+            return res
+        res.nontrivial.append(core.short_hash(case))
+        res.probes["huge_sequence_cases"] += 1
+        log.add("huge", {"shape": list(y.shape), "head": y.reshape(-1)[:8], "tail": y.reshape(-1)[-8:]})
+        if list(y.shape) != list(shape):
+            violate("shape", f"output shape {list(y.shape)} differs from input shape {list(shape)}")
+        else:
+            yf = y.reshape(-1)
+            del y, x
+            first = (torch.arange(L) // T) * T  # first index of each sample's block (integer arithmetic)
+            same = yf == yf[first]
+            if not bool(same.all()):
+                i_ = int((~same).nonzero()[0])
+                violate("block_constancy", f"gain differs inside a coherence block at sample {i_} (block starts at {int(first[i_])}) of a {L}-sample sequence")
+            elif T == 1 or nblocks >= 2:
+                # neighbouring blocks must not share a coefficient systematically
+                starts = yf[::T]
+                eq = int((starts[1:] == starts[:-1]).sum())
+                if eq > 8:
+                    violate("blocks_share_gain", f"{eq} pairs of neighbouring coherence blocks carry exactly the same coefficient in a {L}-sample sequence")
+        res.digest, res.n_events = log.digest(), len(log)
+        return res
     if mode == "supplied":
         x = _signal(case, g)
         if case.get("noncontig") and x.dim() >= 2:
